@@ -1038,6 +1038,16 @@ class Node(
                 f"{inst.__class__.__name__}"
             )
         self.__setstate__(inst.__getstate__())
+        # The channels in that state were made for `inst`; they are ours now
+        for panel in (
+            self.inputs,
+            self.outputs,
+            self.signals.input,
+            self.signals.output,
+        ):
+            for channel in panel:
+                if channel.owner is inst:
+                    channel.owner = self
 
     load.__doc__ = cast(str, load.__doc__) + _save_load_warnings
 
